@@ -18,11 +18,11 @@ CHECKS = {
                 note=BROKER_NOTE),
     "C06": dict(engine="brokermc", cat="model_checking", ref="3/C06",
                 technique="explicit-state BFS over the real broker; every failover edge (every proxy in every reachable state) checked against the ownership-transfer oracle",
-                text="Failover of every proxy is an alphabet symbol in every reachable state (including states produced by earlier failovers, replacements, migrations), so every fault point of every bounded history is enumerated; each such edge is judged by comparing whole-cluster views before/after under limits 0..3.",
+                text="Failover of every proxy is an alphabet symbol in every reachable state (including states produced by earlier failovers, replacements, migrations), so every fault point of every bounded history is enumerated; each such edge is judged by comparing whole-cluster views before/after under limits 0..3 (also when the call reports NO_AVAILABLE_RESOURCE after having applied the takeover); configurations include mid-migration clusters with every proxy in use and a constructed family of all link tables of <= 3 chunks over 3 hosts.",
                 note=BROKER_NOTE),
     "C10": dict(engine="brokermc", cat="model_checking", ref="3/C10",
                 technique="explicit-state BFS with the scaling alphabet (resize requests, every served commit, failovers, rebalance, delete-free-nodes) from 4/8/12-node clusters; state and edge oracles",
-                text="All interleavings of resize requests, commits of any served migration, failovers and rebalances up to the depth/state cap; progress (something is always served and committable), refusal while migrating, balanced full partition at every quiescent state, precise chunk release.",
+                text="All interleavings of resize requests, commits of any served migration, failovers and rebalances up to the depth/state cap; progress (something is always served and committable), refusal while migrating, balanced full partition at every quiescent state, precise chunk release, and a resize request is answered 'nothing to do' only when exactly the requested number of nodes own slots.",
                 note=BROKER_NOTE + " The two storage phases of auto_scale_node_number are driven through hook H3 (the public method waits 30 s on TCP between them)."),
     "C12": dict(engine="brokermc", cat="model_checking", ref="3/C12",
                 technique="explicit-state BFS over the real broker across host/proxy layouts; accounting invariant on every state, refusal/two-host/replacement-host oracles on every edge, panics caught",
@@ -40,10 +40,10 @@ CHECKS = {
                 technique="bounded-exhaustive enumeration of keys (every brace placement) against a bit-wise CRC16/hash-tag reference, and of slot layouts x probe slots x multi-key shapes on one real proxy over a harness-owned network",
                 text="Keys: every byte string up to the length bound over {'{','}','a','b',0x00,0xFF} plus published vectors, real generate_slot/same_slot vs a reference written from the Redis Cluster specification. Routing: every assignment of six boundary segments to {local node 1, local node 2, peer X, peer Y, nobody} is installed through a real UMCTL SETCLUSTER on a real ForwardHandler and probed at the first/last slot of each segment (GET and CLUSTER KEYSLOT), all 16384 slots on a sample of layouts; oracle: local => executed on exactly that node's stand-in, peer => MOVED <slot> <peer>, nobody => error and no execution; 20 multi-key shapes (MGET/MSET/MSETNX/DEL/EXISTS/EVAL/BLPOP) must be refused unless all keys share a slot and then touch only the owner.",
                 note="Trusted: reference CRC/hash-tag implementation (self-checked against published vectors); the in-harness Redis stand-in; the harness mini-session that feeds ForwardHandler::handle_cmd_ctx (handle_session itself is covered by C08)."),
-    "C17": dict(engine="enummc", cat="model_checking", ref="3/C17",
+    "C17": dict(engine="enummc+simnet", cat="model_checking", ref="3/C17",
                 technique="bounded-exhaustive enumeration of control-plane values x both encodings x all single-token mutations against strict reference parsers",
-                text="Generated ProxyClusterMeta / ReplicatorMeta / MigrationTaskMeta values are encoded by the real encoders; each encoding (plain, compressed) must decode to an equal value, and every single-token deletion, truncation and replacement (and 64 single-character corruptions of each compressed payload) is judged by a strict reference parser: not an encoding => the real parser must reject, an encoding of w => the real parser must return w.",
-                note="Trusted: reference parsers in c17.rs (tolerant where the real grammar is deliberately open: unknown flags ignored, '+' in numbers, tokens after a complete task descriptor). The broker-produced messages and the INFOMGR->commit journey are covered once simnet exists."),
+                text="Generated ProxyClusterMeta / ReplicatorMeta / MigrationTaskMeta values are encoded by the real encoders; each encoding (plain, compressed) must decode to an equal value, and every single-token deletion, truncation and replacement (and 64 single-character corruptions of each compressed payload) is judged by a strict reference parser: not an encoding => the real parser must reject, an encoding of w => the real parser must return w. JOURNEY (simnet): in the fault-free executions of the C07 scripts every task descriptor the real coordinator parses out of a real proxy's UMCTL INFOMGR reply must be accepted by the real broker's commit_migration the first time.",
+                note="Trusted: reference parsers in c17.rs (tolerant where the real grammar is deliberately open: unknown flags ignored, '+' in numbers, tokens after a complete task descriptor). Broker-produced SETCLUSTER/SETREPL messages travel through the real encoders and parsers in every C02/C07/C13 case."),
     "C20": dict(engine="simnet", cat="model_checking", ref="3/C20",
                 technique="bounded-exhaustive enumeration of strategy x topology x write shape x read shape x value on real proxies with a storing Redis stand-in",
                 text="Every combination of compression strategy {disabled, set_get_only, allow_all}, topology {owner proxy; non-owner proxy with active redirection, without and with UMFORWARD}, 11 write shapes (SET with/without EX/NX/PX XX, SETEX, PSETEX, SETNX, GETSET, MSET 1/3 pairs, MSETNX), value class (empty, 1 byte, all 256 byte values, RESP look-alike, incompressible, zeros, a zstd frame, OK, integer text) and read shape (GET, MGET with a missing key, GETSET) is executed; oracle: reads return the written bytes, the node stores a payload that zstd-decodes to the value with the original ttl, keys/options/non-string replies untouched, the 14 string-content commands refused and not forwarded under set_get_only, nothing altered under disabled.",
